@@ -42,3 +42,29 @@ fn c16_track_queued_across_rate_change_learns_the_new_rate() {
 	kani::cover!(true, "w:reached");
 	std::mem::forget(mixer); std::mem::forget(sub_ctrl); std::mem::forget(send_ctrl); std::mem::forget(main_handle); std::mem::forget(handle);
 }
+
+// @h prop=C11,C02 tier=quick kind=main timeout=900
+// @bounds real Mixer (internal buffer 2) with one real SendTrack whose volume tween serves as a stopwatch; Mixer::process asked for a chunk of ONE frame (a remainder chunk)
+// @funcs Mixer::process, SendTrack::process
+// @catches a send track being run over the whole scratch buffer on a short chunk: its parameters and effects then advance by frames that are never output, and the rendering depends on how callbacks are partitioned
+// @requires kv_send_track_peek.rs
+// @requires kv_storage_place.rs
+// @requires kv_mixer_peek.rs
+#[kani::proof]
+#[kani::unwind(4)]
+fn c11_mixer_renders_send_tracks_with_the_frames_in_the_chunk() {
+	use crate::backend::resources::{clocks::Clocks, listeners::Listeners, modulators::Modulators};
+	let (mut mixer, sub_ctrl, send_ctrl, main_handle) = Mixer::new(0, 1, 4, 2, MainTrackBuilder::new().sound_capacity(0));
+	let mut send = SendTrack::kv_new(crate::Decibels::IDENTITY, 2);
+	send.kv_start_stopwatch();
+	let key = mixer.kv_send_tracks().kv_place(send);
+	let (clocks, a) = Clocks::new(0); let (modulators, b) = Modulators::new(0); let (listeners, c) = Listeners::new(0);
+	std::mem::forget(a); std::mem::forget(b); std::mem::forget(c);
+	let mut out = [Frame::ZERO; 1];
+	mixer.process(&mut out, 0.25, &clocks, &modulators, &listeners);
+	let t = mixer.kv_send_tracks().get_mut(key).unwrap().kv_stopwatch();
+	assert!(t == Some(0.25), "a send track is given exactly the time of the frames in the chunk");
+	kani::cover!(true, "w:reached");
+	std::mem::forget(mixer); std::mem::forget(sub_ctrl); std::mem::forget(send_ctrl); std::mem::forget(main_handle);
+	std::mem::forget(clocks); std::mem::forget(modulators); std::mem::forget(listeners);
+}
